@@ -137,6 +137,12 @@ def minimise_c16(ctx, spec, res, viol, max_runs=300, max_s=90.0):
                     break
 
     # --- phase A: structure -------------------------------------------------
+    if cur.get('kill') and budget.ok():
+        s2 = copy.deepcopy(cur)
+        del s2['kill']
+        got = attempt(s2)
+        if got:
+            cur, (cur_res, cur_v) = s2, got
     changed = True
     while changed and budget.ok():
         changed = False
